@@ -315,6 +315,14 @@ def run(prog, check):
              'the caller\'s own Term object can be placed in the equation: a later merge changes the caller\'s object / another equation sharing it',
              'the same Term object added to two equations, or three times to one')
     # ---- AddTerm: merge only textually equal terms (R1 companion) -----------------------------------
+    # ---- R7: a term keeps the text it was given ----------------------------------------------------------
+    from ._common import term_text_verbatim
+    tinit, tstores = term_text_verbatim(prog)
+    check.saw(tinit)
+    for n_, ok_, why_ in tstores:
+        check.ob('C12.R7', '%s::term-text-verbatim(%s)' % (tinit.key, unparse(n_.value)), ok_, '%s:%d' % (tinit.module.rel, n_.lineno), why_,
+                 "a quotient 'W/P', a product 'b*a': the value of the stored text must be the value of the text passed in")
+    check.floor('C12.R7', 3)
     check.floor('C12.R1', 3)
     check.floor('C12.R2', 5)
     check.floor('C12.R3', 3)
